@@ -281,7 +281,7 @@ def sorted_division_locations(seq, npartitions=None, chunksize=None):
 
     # Convert from an ndarray to a plain list so that
     # any divisions we extract from seq are plain Python scalars.
-    seq = tolist(seq)
+    seq = list(seq) if isinstance(seq, (list, tuple)) else tolist(seq)
     # we use bisect later, so we need sorted.
     seq_unique = sorted(set(seq))
     duplicates = len(seq_unique) < len(seq)
